@@ -6,12 +6,12 @@ toolchain go1.23.5
 
 require (
 	github.com/anishathalye/porcupine v1.3.0
+	github.com/go-openapi/jsonpointer v0.21.1
 	github.com/go-openapi/spec v0.0.0
 	golang.org/x/tools v0.29.0
 )
 
 require (
-	github.com/go-openapi/jsonpointer v0.21.1 // indirect
 	github.com/go-openapi/jsonreference v0.21.0 // indirect
 	github.com/go-openapi/swag v0.23.1 // indirect
 	github.com/josharian/intern v1.0.0 // indirect
